@@ -391,12 +391,18 @@ func (gen *Generator) GenerateShortCircuit(or bool, args []Sexp) error {
 	subgen.scopes = gen.scopes
 	subgen.Tail = gen.Tail
 	subgen.funcname = gen.funcname
-	subgen.Generate(args[size-1])
+	err := subgen.Generate(args[size-1])
+	if err != nil {
+		return err
+	}
 	instructions := subgen.instructions
 
 	for i := size - 2; i >= 0; i-- {
 		subgen = gen.NewSubGenerator()
-		subgen.Generate(args[i])
+		err = subgen.Generate(args[i])
+		if err != nil {
+			return err
+		}
 		subgen.AddInstruction(DupInstr(0))
 		subgen.AddInstruction(BranchInstr{or, len(instructions) + 2})
 		subgen.AddInstruction(PopInstr(0))
@@ -696,7 +702,9 @@ func (gen *Generator) GenerateBuilder(fun Sexp, args []Sexp) error {
 	for i := 0; i < n; i++ {
 		gen.AddInstruction(PushInstr{args[i]})
 	}
-	gen.Generate(fun)
+	if err := gen.Generate(fun); err != nil {
+		return err
+	}
 	gen.AddInstruction(DispatchInstr{len(args)})
 	return nil
 }
@@ -1187,17 +1195,14 @@ func (gen *Generator) GenerateSyntaxQuote(args []Sexp) error {
 	// in them too.
 	switch aaa := arg.(type) {
 	case *SexpArray:
-		gen.generateSyntaxQuoteArray(aaa)
-		return nil
+		return gen.generateSyntaxQuoteArray(aaa)
 	case *SexpPair:
 		if !IsList(arg) {
 			break
 		}
-		gen.generateSyntaxQuoteList(arg)
-		return nil
+		return gen.generateSyntaxQuoteList(arg)
 	case *SexpHash:
-		gen.generateSyntaxQuoteHash(arg)
-		return nil
+		return gen.generateSyntaxQuoteHash(arg)
 	}
 	gen.AddInstruction(PushInstr{arg})
 	return nil
@@ -1235,10 +1240,11 @@ func (gen *Generator) generateSyntaxQuoteList(arg Sexp) error {
 		if issymbol {
 			if sym.name == "unquote" {
 				//VPrintf("detected unquote with quotebody[1]='%#v'   arg='%#v'\n", quotebody[1], arg)
-				gen.Generate(quotebody[1])
-				return nil
+				return gen.Generate(quotebody[1])
 			} else if sym.name == "unquote-splicing" {
-				gen.Generate(quotebody[1])
+				if err := gen.Generate(quotebody[1]); err != nil {
+					return err
+				}
 				gen.AddInstruction(ExplodeInstr(0))
 				return nil
 			}
@@ -1248,7 +1254,9 @@ func (gen *Generator) generateSyntaxQuoteList(arg Sexp) error {
 	gen.AddInstruction(PushInstr{SexpMarker})
 
 	for _, expr := range quotebody {
-		gen.GenerateSyntaxQuote([]Sexp{expr})
+		if err := gen.GenerateSyntaxQuote([]Sexp{expr}); err != nil {
+			return err
+		}
 	}
 
 	gen.AddInstruction(SquashInstr(0))
@@ -1271,7 +1279,9 @@ func (gen *Generator) generateSyntaxQuoteArray(arg Sexp) error {
 	gen.AddInstruction(PushInstr{SexpMarker})
 	for _, expr := range arr.Val {
 		gen.AddInstruction(PushInstr{SexpMarker})
-		gen.GenerateSyntaxQuote([]Sexp{expr})
+		if err := gen.GenerateSyntaxQuote([]Sexp{expr}); err != nil {
+			return err
+		}
 		gen.AddInstruction(SquashInstr(0))
 		gen.AddInstruction(ExplodeInstr(0))
 	}
@@ -1301,12 +1311,16 @@ func (gen *Generator) generateSyntaxQuoteHash(arg Sexp) error {
 		}
 		// value first, since value comes second on rebuild
 		gen.AddInstruction(PushInstr{SexpMarker})
-		gen.GenerateSyntaxQuote([]Sexp{val})
+		if err := gen.GenerateSyntaxQuote([]Sexp{val}); err != nil {
+			return err
+		}
 		gen.AddInstruction(SquashInstr(0))
 		gen.AddInstruction(ExplodeInstr(0))
 
 		gen.AddInstruction(PushInstr{SexpMarker})
-		gen.GenerateSyntaxQuote([]Sexp{key})
+		if err := gen.GenerateSyntaxQuote([]Sexp{key}); err != nil {
+			return err
+		}
 		gen.AddInstruction(SquashInstr(0))
 		gen.AddInstruction(ExplodeInstr(0))
 	}
